@@ -237,6 +237,53 @@ def _viol(d, dname, kind, ev, obs, exp):
     return {"key": f"C15|{dname}|{kind}|{what}", "source": d["src"], "expected": exp, "observed": obs}
 
 
+def w_repeat(job):
+    """Long histories of ONE kind: the same exported function invoked 320 times on one VM (a second VM of the program touched in
+    between), every result and every global compared with the reference.  State that accumulates per invocation shows only here."""
+    dname, lo, hi = job
+    d = get_driver(dname)
+    res = d["res"]
+    fails, n = [], 0
+    if not res.ok:
+        return n, fails
+    gnames = [g for _, g in d["prog"]["globals"]]
+    for fname, a in d["invoke"][lo:hi]:
+        program = link(res.module)
+        vms = [new_vm(program), new_vm(program)]
+        ref_g = [{g: None for g in gnames}, {g: None for g in gnames}]
+        for k in (0, 1):
+            for g, dom in d["domains"].items():
+                vms[k].SetGlobal(g, copy.deepcopy(dom[k % len(dom)]))
+                ref_g[k][g] = copy.deepcopy(dom[k % len(dom)])
+        bad = None
+        for step in range(320):
+            k = 1 if step % 50 == 49 else 0
+            try:
+                want = Interp(d["prog"]).invoke(fname, {"d": a} if "d" in [p[1] for f in d["prog"]["funcs"] if f["name"] == fname for p in f["params"]] else {"n": a}, ref_g[k])
+            except Unspec:
+                break
+            n += 1
+            try:
+                with pool.time_limit(2.0):
+                    got = vms[k].Invoke(fname, **({"d": a} if "d" in [p[1] for f in d["prog"]["funcs"] if f["name"] == fname for p in f["params"]] else {"n": a}))
+            except BaseException as e:
+                bad = (step, f"invocation {step + 1} raises {type(e).__name__}: {e}", f"returns {want!r}")
+                break
+            if not values_equal(got, want):
+                bad = (step, f"invocation {step + 1} returns {got!r}", f"returns {want!r}")
+                break
+            for kk in (0, 1):
+                for g in gnames:
+                    if not values_equal(vms[kk].GetGlobal(g), ref_g[kk][g]):
+                        bad = (step, f"after invocation {step + 1}: vm{kk}.{g} = {vms[kk].GetGlobal(g)!r}", f"vm{kk}.{g} = {ref_g[kk][g]!r}")
+            if bad:
+                break
+        if bad:
+            fails.append({"key": f"C15|{dname}|repeated-invocation-differs|{fname}", "source": d["src"], "repeat": [dname, lo, hi], "expected": bad[2], "observed": bad[1],
+                          "history": [["inv", 0, fname, a]] * min(bad[0] + 1, 3)})
+    return n, fails
+
+
 def expand(job):
     hists, dname = job
     d = get_driver(dname)
@@ -281,6 +328,14 @@ def run(tier, seed):
         for k, c in r.counts.items():
             counts[k] = counts.get(k, 0) + c
         samples += [{"driver": dname, "history": s} for s in r.samples[:2]]
+    rjobs = [(dn, i, i + 2) for dn in order for i in range(0, len(get_driver(dn)["invoke"]), 2)]
+    repeated = 0
+    for a_, fl_ in pool.pmap(w_repeat, rjobs):
+        repeated += a_
+        for f_ in fl_:
+            failures.append(f_)
+            counts[f_["key"]] = counts.get(f_["key"], 0) + 1
+    transitions += repeated
     seen, uniq = set(), []
     for f in failures:
         if f["key"] not in seen:
@@ -305,6 +360,12 @@ def run(tier, seed):
 
 
 def replay(rec, verbose=True):
+    if "repeat" in rec:
+        n, fl = w_repeat(tuple(rec["repeat"]))
+        if verbose:
+            print(rec["source"])
+            print(fl)
+        return any(f["key"] == rec["key"] for f in fl)
     dname = rec.get("driver") or rec["key"].split("|")[1]
     hist = [tuple(e) for e in rec.get("history", [])]
     canon, viol, terminal, outcome = run_history(dname, hist)
